@@ -25,7 +25,7 @@ RULE = (
     'succeeding or failing in step 2, any priority), try t (fire trigger t '
     'when state.dot has no arc for it from the current state)}. Part words: '
     'random words; part bounded: every word of length <= 4 (quick) / 5 '
-    '(thorough) over a 9-letter alphabet after boot. After each word all '
+    '(thorough) over a 10-letter alphabet after boot. After each word all '
     'outstanding steps are completed. Non-trivial: a trigger or submission '
     'is fired while a background step is outstanding. Distinct = SHA-1 of '
     'case JSON.'
@@ -111,7 +111,10 @@ def run_word(word, out):
     updates = 0
     try:
         booted = False
-        for ev in word:
+        word_tail = []
+        queue = list(word)
+        while queue or word_tail:
+            ev = word_tail.pop(0) if word_tail else queue.pop(0)
             kind = ev[0]
             where = str(ev)
             busy = bool(r.lifecycle_steps())
@@ -142,6 +145,8 @@ def run_word(word, out):
                     n = r.pipelines
                     r.fsm.update_trigger()
                     updates += 1
+                    if len(ev) > 1 and ev[1]:
+                        word_tail.append(['guarded', ev[1] - 1])
             elif kind == 'submit':
                 active = r.fsm.is_pipeline_active()
                 before = r.snapshot()
@@ -166,6 +171,31 @@ def run_word(word, out):
                 else:
                     out.label('submission-accepted' if ev[1]
                               else 'submission-failed-in-step-2')
+            elif kind == 'work':
+                # an algorithm runs for real: a value and its metrics are
+                # stored, the next introspection has data to digest
+                if r.work():
+                    out.label('real-execution-stored-metrics')
+            elif kind == 'guarded':
+                # an arc whose before-callback claims the transitioning
+                # guard, fired while the reload step still holds it
+                trig = ['archiving_trigger', 'loading_trigger'][ev[1] % 2]
+                if r.fsm.state == 'updating' and busy and (
+                        r.fsm.transitioning.name != 'active'):
+                    out.nontrivial = True
+                    out.label('guarded-trigger-while-reload-outstanding')
+                    before = r.snapshot()
+                    try:
+                        getattr(r.fsm, trig)()
+                        out.fail('reject/guarded-trigger-accepted',
+                                 f'{where}: {trig} accepted in updating/'
+                                 f'{before[1].name} with the reload step '
+                                 'outstanding')
+                    except (transitions.MachineError, TypeError):
+                        if r.snapshot() != before:
+                            out.fail('reject/side-effects',
+                                     f'{where}: {trig} rejected but '
+                                     f'{before} -> {r.snapshot()}')
             elif kind == 'try':
                 trig = fsmrig.TRIGGERS[ev[1] % len(fsmrig.TRIGGERS)]
                 if (r.fsm.state, trig) not in ARCS:
@@ -226,7 +256,8 @@ _ev = st.one_of(
     st.tuples(st.just('step'), st.integers(0, 2)).map(list),
     st.tuples(st.just('step'), st.integers(0, 2)).map(list),
     st.just(['git']), st.just(['staged']), st.just(['archive']),
-    st.just(['archive']), st.just(['update']), st.just(['update']),
+    st.just(['archive']), st.just(['update']), st.just(['update', 1]),
+    st.just(['update', 2]),
     st.tuples(st.just('submit'), st.integers(0, 1),
               st.sampled_from(['0', '1', '2', '3']),
               st.integers(0, 1)).map(list),
@@ -237,15 +268,18 @@ _ev = st.one_of(
     st.tuples(st.just('step'), st.integers(0, 2)).map(list),
     st.tuples(st.just('try'), st.integers(0, 7)).map(list),
     st.tuples(st.just('try'), st.integers(0, 7)).map(list),
+    st.tuples(st.just('guarded'), st.integers(0, 1)).map(list),
+    st.tuples(st.just('guarded'), st.integers(0, 1)).map(list),
+    st.just(['work']),
 )
 _word = st.fixed_dictionaries({
     'word': st.lists(_ev, min_size=2, max_size=24).map(
         lambda w: [['boot']] + w),
 })
 
-ALPHABET = [['step', 0], ['git'], ['staged'], ['archive'], ['update'],
+ALPHABET = [['step', 0], ['git'], ['staged'], ['archive'], ['update', 1],
             ['submit', 1, '0', 1], ['submit', 0, '3', 0], ['try', 2],
-            ['try', 5]]
+            ['try', 5], ['guarded', 0]]
 
 
 def _bounded(depth):
@@ -256,13 +290,34 @@ def _bounded(depth):
     return gen
 
 
+@st.composite
+def _cycle_words(draw):
+    '''boot, then 2-4 update cycles allowed to finish, some preceded by a
+    real execution (metrics) or an idle archive, with stray events between
+    the step completions'''
+    word = [['boot'], ['step', 0], ['step', 0]]
+    for _ in range(draw(st.integers(2, 4))):
+        if draw(st.booleans()):
+            word.append(['work'])
+        if draw(st.integers(0, 3)) == 0:
+            word += [['archive'], ['step', 0]]
+        word.append(['update', draw(st.integers(0, 2))])
+        for _ in range(6):
+            if draw(st.integers(0, 4)) == 0:
+                word.append(draw(_ev))
+            word.append(['step', 0])
+    return {'word': word}
+
+
 def parts(tier):
     q = tier == 'quick'
     depth = 3 if q else 5
     return [
         core.Part('bounded', execute, enum=_bounded(depth), exhaustive=True,
-                  enum_note=f'every word of length <= {depth} over a 9-letter '
+                  enum_note=f'every word of length <= {depth} over a 10-letter '
                   'event alphabet after boot'),
         core.Part('words', execute, strategy=_word,
                   cases=800 if q else 40000, batch=100),
+        core.Part('cycles', execute, strategy=_cycle_words(),
+                  cases=240 if q else 10000, batch=80),
     ]
